@@ -78,7 +78,7 @@ var recFields = []fld{
 	{"id", tN}, {"name", tS}, {"grp", tS}, {"vals", tA(tN)}, {"attrs", tO(tS)}, {"on", tB}, {"pt", tPt},
 }
 var ptFields = []fld{{"x", tN}, {"y", tN}}
-var mapKeys = []string{"a", "b", "c", "d", "e", "f", "k 1", "é", "zz", "q\"t", "A", "k2", "t\tb"}
+var mapKeys = []string{"a", "b", "t\tb", "c", "q\"t", "d", "k 1", "é", "e", "f", "zz", "A", "k2"}
 
 func fieldsOf(t *Ty) []fld {
 	switch t.K {
@@ -276,7 +276,7 @@ func (g *DocGen) val(t *Ty, depth int) string {
 			n = 4096 + g.r.Intn(2000) // beyond "large input" thresholds of parallel or chunked code paths
 		}
 		bad := -1
-		if g.big && g.latePoison && depth <= 1 && n > 60 {
+		if g.big && g.latePoison && depth <= 1 && n > 60 && g.r.P(1, 2) {
 			bad = n - 1 - g.r.Intn(5)
 		}
 		return g.arr(n, func(i int) string {
@@ -697,6 +697,31 @@ func (g *ExprGen) gen(want, cur *Ty, depth int) *Expr {
 		}
 		inner.C = append(inner.C, body)
 		outer.C = append(outer.C, inner)
+		return outer
+	}
+	if g.w(g.b.Let) && g.r.P(1, 4) {
+		// scope-lifetime probes: a name bound by a nested let must not be
+		// visible to a sibling of that let
+		g.nvar++
+		b := "s" + strconv.Itoa(g.nvar%3)
+		inner := &Expr{K: KLet, Keys: []string{b}, C: []*Expr{g.gen(want, cur, depth+2), {K: KVar, S: b}}}
+		leak := &Expr{K: KVar, S: b}
+		var body *Expr
+		if g.r.P(1, 2) {
+			body = &Expr{K: KHash, Keys: []string{"x", "y"}, C: []*Expr{inner, leak}}
+		} else {
+			body = &Expr{K: KList, C: []*Expr{inner, leak}}
+		}
+		outer := &Expr{K: KLet, Keys: []string{"o" + strconv.Itoa(g.nvar%2)}, C: []*Expr{g.gen(g.anyTy(), cur, depth+1)}}
+		if g.r.P(1, 2) {
+			// the outer let binds the same name: the sibling must see the OUTER value
+			outer.Keys = append(outer.Keys, b)
+			outer.C = append(outer.C, g.gen(want, cur, depth+1))
+			mid := &Expr{K: KLet, Keys: []string{"m0"}, C: []*Expr{g.gen(g.anyTy(), cur, depth+2), body}}
+			outer.C = append(outer.C, mid)
+			return outer
+		}
+		outer.C = append(outer.C, body)
 		return outer
 	}
 	if g.w(g.b.Let) {
